@@ -11,7 +11,7 @@ pub static mut B64_STUB_LEN: usize = 0x5eed_b64a_0000_0001; // distinctive: see 
 pub static mut B64_STUB_PREFIX: u64 = 0x5eed_b64a_0000_0100;
 /// 1 = the stub may also answer Err (default), 0 = it always decodes
 #[cfg(kani)]
-pub static mut B64_STUB_MAY_FAIL: u64 = 0x5eed_b64a_0000_0001;
+pub static mut B64_STUB_MAY_FAIL: u64 = 0x5eed_b64a_0000_0004; // every static needs its OWN initial value (identical initialisers share storage under Kani 0.68)
 /// What the decoder was handed (for assertions about the '=' stripping step).
 #[cfg(kani)]
 pub static mut B64_STUB_SAW_EQ: u64 = 0x5eed_b64a_0000_0002; // 0 / 1 once set
